@@ -1,10 +1,11 @@
 package crash
 
 import (
-	"os"
-	"runtime/debug"
 	"fmt"
 	"math/rand/v2"
+	"os"
+	"runtime/debug"
+	"strings"
 	"sync"
 	"sync/atomic"
 
@@ -33,9 +34,9 @@ type faultRule struct {
 	Name      string
 	Kinds     errorfs.OpKinds
 	FileTypes map[base.FileType]bool // nil = any parsable or unparsable path except WAL/MANIFEST/marker/lock
-	External  bool                    // also hit files outside the store (ingest sources)
-	Skip      int64                   // let this many matching ops pass first
-	Count     int64                   // then fail this many (large = window)
+	External  bool                   // also hit files outside the store (ingest sources)
+	Skip      int64                  // let this many matching ops pass first
+	Count     int64                  // then fail this many (large = window)
 }
 
 type faultInjector struct {
@@ -213,8 +214,17 @@ func RunFaultHistory(R *vcommon.Report, k dbcheck.Knobs, caseIdx int, rng *rand.
 		}
 		bg := run.BackgroundErrors()
 		R.Count("background_errors_under_faults", int64(len(bg)))
-		if len(bg) > 0 && fired == 0 {
-			run.Fail("background-error", "background error without an injected fault: %s", bg[0])
+		// A background job that hit an injected error in an EARLIER round may
+		// report it only now (the event is asynchronous): errors that carry the
+		// injected error are attributed to the injections of the whole history.
+		var foreign []string
+		for _, e := range bg {
+			if !strings.Contains(e, errorfs.ErrInjected.Error()) || fi.fired.Load() == 0 {
+				foreign = append(foreign, e)
+			}
+		}
+		if len(foreign) > 0 && fired == 0 {
+			run.Fail("background-error", "background error without an injected fault: %s", foreign[0])
 			break
 		}
 		if run.Failed() {
